@@ -139,6 +139,18 @@ theorem typeset_scope_eq (occs : List OptOcc) (hfam : ∀ o ∈ occs, o ∈ type
       simp only [List.map_cons, List.contains_cons] at ih ⊢
       exact ih
 
+theorem optOccOf_optString (occs : List OptOcc) (hfam : ∀ o ∈ occs, o ∈ typesetFamily) :
+    (occs.map optString).filterMap optOccOf = occs := by
+  induction occs with
+  | nil => rfl
+  | cons o occs ih =>
+    have hfam' : ∀ o ∈ occs, o ∈ typesetFamily := fun o' h => hfam o' (by simp [h])
+    have ho := hfam o (by simp)
+    simp only [typesetFamily, List.mem_cons, List.not_mem_nil, or_false] at ho
+    have h1 : optOccOf (optString o) = some o := by
+      rcases ho with rfl | rfl | rfl | rfl | rfl | rfl <;> decide
+    simp only [List.map_cons, List.filterMap_cons, h1, ih hfam']
+
 /-! ### one operand -/
 
 theorem typesetField_eq_executeField {σ} (I : Iface σ) (hI : NoRefusal I) (tsc : TScope) (occs : List OptOcc)
